@@ -58,6 +58,15 @@ for it in range(R.n(30, 600)):
             ref = [sum(fr.data[i, j] for j in range(n)) / (1 if mode == 'sum' else n) for i in range(T)] if axis == 'f' else \
                   [sum(fr.data[i, j] for i in range(T)) / (1 if mode == 'sum' else T) for j in range(n)]
             R.check('integrate/value', dict(c, axis=axis, mode=mode), np.allclose(v, ref, rtol=1e-9), None)
+    from astropy.stats import sigma_clip as _sc
+    for axis in ('t', 'f'):
+        raw = stg.integrate(fr, axis=axis)
+        cl = _sc(raw.reshape((-1, 1)) if axis == 'f' else raw.reshape((1, -1)))
+        ref = (raw - np.mean(cl)) / np.std(cl)
+        a = stg.integrate(fr, axis=axis, normalize=True)
+        b = stg.integrate(fr, axis=axis, normalize=True, as_frame=True).data.flatten()
+        if np.std(cl) > 0:
+            R.check('integrate/normalized-same-in-every-output-form', dict(c, axis=axis), np.allclose(a, ref, rtol=1e-9) and np.allclose(b, ref, rtol=1e-9), None)
     sp = stg.spectrum(fr); ts_ = stg.timeseries(fr)
     R.check('spectrum/axis', c, sp.data.shape == (1, n) and np.allclose(sp.fs, fr.fs, rtol=0, atol=1e-6 * df), None)
     R.check('timeseries/axis', c, ts_.data.shape == (T, 1) and np.allclose(ts_.ts, fr.ts), None)
